@@ -144,7 +144,21 @@ theorem filtered_entry_counted_against_the_limit_before_the_fix :
     let all : OMap := [e 5 1, e 4 7, e 3 1, e 2 1, e 1 1]
     let fetchN : Nat → OMap := fun n => all.take n
     let good : Entry → Bool := fun x => x.logId == 1
-    Refetch.kept good (fetchN 3) = 2 ∧ Refetch.loop fetchN good 3 6 3 = 4 ∧ Refetch.kept good (fetchN 4) = 3 :=
+    Refetch.kept good (fetchN 3) = 2 ∧ Refetch.loop fetchN good 3 6 3 = 6 ∧ Refetch.kept good (fetchN 6) = 4 :=
   Refetch.one_fetch_kept_too_few
+
+/-- the same for the loop as it is since the review of that repair (finding F63, fix: commit): every round
+excludes from its fetch what the earlier rounds found to belong to another log, so each round has a
+fetcher of its own (`fs k`, ANY dependence on the earlier rounds). As long as no round's fetcher returns
+more than it is asked for nor more than `T` entries, the loop ends within `T + 1` rounds, on a fetch
+that keeps at least `amount` entries, or came back short (everything reachable was fetched), or left
+nothing out. With one fetcher for every round it is the loop above (`Refetch.loopR_const`). -/
+theorem limited_load_with_exclusions_fetches_until_the_limit_is_met (fs : Nat → Nat → OMap)
+    (good : Entry → Bool) (amount T : Nat)
+    (hle : ∀ k n, (fs k n).length ≤ n) (hT : ∀ k n, (fs k n).length ≤ T) (len : Nat) :
+    let r := Refetch.loopR fs good amount (T + 1) 0 len
+    Refetch.kept good (fs r.1 r.2) ≥ amount ∨ (fs r.1 r.2).length < r.2 ∨
+      Refetch.refused good (fs r.1 r.2) = 0 :=
+  Refetch.loopR_keeps_enough fs good amount T hle hT len
 
 end Orbit.C15
